@@ -208,6 +208,11 @@ var mutants = []Mutant{
 	{"C05-slashing-enabled", "C05", "module/x/mhub2/abci.go", `//outgoingTxSlashing\(ctx, chainId, k\)`, `outgoingTxSlashing(ctx, chainId, k)`, "C05.contain", "outgoing-tx slashing enabled with its stale 'not jailed' snapshot"},
 	{"C11-connector-nets-fee", "C11", "minter-connector/cosmos/cosmos.go", `Amount:           amount,`, `Amount:           amount.Sub(fee),`, "C11.credit", "the connector reports cross-chain deposits net of the fee"},
 	{"C13-payout-units", "C13", "module/x/mhub2/keeper/batch.go", `totalFee\.Amount = totalFee\.Amount\.Add\(tx\.Fee\.Amount\)`, `totalFee.Amount = totalFee.Amount.Add(k.ConvertFromExternalValue(ctx, chainId, tx.Fee.ExternalTokenId, tx.Fee.Amount))`, "C13.exact-delete", "the fee total is converted twice (payout arithmetic the removal depends on)"},
+	// rules added after the sixth seeding round
+	{"C09-constructor-filter", "C09", "module/x/mhub2/types/types.go", `(\tfor _, val := range members \{\n)\t\tmem = append\(mem, val\)\n`, "${1}\t\tif val.Power > 0 {\n\t\t\tmem = append(mem, val)\n\t\t}\n", "C09.membership", "the signer-set constructor drops members of power 0"},
+	{"C19-payout-hash", "C19", "module/x/mhub2/keeper/batch.go", `(tx\.RefundAddress, sdk\.NewCoin\(fee\.Denom, toRefund\), sdk\.NewInt64Coin\(fee\.Denom, 0\), sdk\.NewInt64Coin\(fee\.Denom, 0\), )"#fee"`, "${1}tx.TxHash", "C19.record", "fee refunds are filed under the hash of the refunded transfer"},
+	{"C20-setter-guard", "C20", "minter-connector/context/context.go", `(func \(c \*Context\) SetLastEventNonce\(lastEventNonce uint64\) \{\n)`, "${1}\tif lastEventNonce < c.status.LastEventNonce {\n\t\treturn\n\t}\n", "C20.cursor", "the event-nonce setter ignores a rewind"},
+	{"C17-key-layout", "C17", "module/x/mhub2/types/key.go", `\{\{OrchestratorValidatorAddressKey\}, chainId\.Bytes\(\), orc\.Bytes\(\)\}`, `{{OrchestratorValidatorAddressKey}, {byte(len(chainId))}, chainId.Bytes(), orc.Bytes()}`, "C17.key-shape", "the orchestrator index key gets a length byte before the chain id"},
 	{"C20-count-invalid", "C20", "minter-connector/minter/minter.go", `if cmd\.ValidateAndComplete\(value\) == nil \{`, `if cmd.ValidateAndComplete(value) == nil || true {`, "C20.counted-iff-valid", "invalid commands counted by the resync scan"},
 }
 
